@@ -251,7 +251,9 @@ pub fn check(c: &Case, seams_open: bool) -> CheckResult {
     let dashed = raqote::verif::dash_path(&path.flatten(0.1), &dashes, style.dash_offset);
     let out = output_pieces(&dashed);
     let scale = polys.iter().flat_map(|p| p.pts.iter()).fold(1.0f64, |m, q| m.max(q.0.abs()).max(q.1.abs()));
-    let tol = 2e-3 + 2e-6 * (style.dash_offset.abs() as f64) + 1e-5 * scale;
+    // (f32 remainder is exact, so the offset's magnitude does not enter the tolerance; the model uses the
+    // same f32 offset value)
+    let tol = 2e-3 + 1e-5 * scale;
     let Some(model) = model else {
         // a dash array whose total is not positive paints nothing
         if out.iter().any(|(p, _)| p.len() >= 2 && poly_len(p, false) > 0.0) {
@@ -345,6 +347,7 @@ pub fn check(c: &Case, seams_open: bool) -> CheckResult {
     o.class_if(c.aligned, "aligned");
     o.class_if(style.dash_offset != 0.0, "offset-nonzero");
     o.class_if(style.dash_offset < 0.0, "offset-negative");
+    o.class_if(style.dash_offset.abs() >= 1.0e5, "offset-huge");
     o.class_if(dashes.len() % 2 == 1, "odd-array");
     o.class_if(polys.iter().any(|p| p.closed), "closed-subpath");
     o.class_if(polys.len() > 1, "multi-subpath");
@@ -419,7 +422,18 @@ pub fn strategy() -> BoxedStrategy<Case> {
             let offset = if aligned {
                 prop_oneof![3 => Just(0.0f32), 3 => (-20i32..=40).prop_map(|v| v as f32)].boxed()
             } else {
-                prop_oneof![3 => Just(0.0f32), 3 => 0.0f32..10.0, 2 => 10.0f32..100.0, 1 => Just(10000.0f32), 1 => 1000.0f32..10000.0, 3 => -100.0f32..0.0].boxed()
+                prop_oneof![
+                    3 => Just(0.0f32),
+                    3 => 0.0f32..10.0,
+                    2 => 10.0f32..100.0,
+                    1 => Just(10000.0f32),
+                    1 => 1000.0f32..10000.0,
+                    3 => -100.0f32..0.0,
+                    // "any magnitude": huge offsets of either sign
+                    2 => (1.0e5f32..2.0e9, any::<bool>()).prop_map(|(v, neg)| if neg { -v } else { v }),
+                    1 => prop::sample::select(vec![1.0e9f32, -1.0e9, 123456792.0, 1.0e7, -3.0e8, 1.0e12, -1.0e15]),
+                ]
+                .boxed()
             };
             let xf = if aligned {
                 Just(IDENT).boxed()
@@ -432,13 +446,20 @@ pub fn strategy() -> BoxedStrategy<Case> {
             };
             (Just((w, h, aligned)), dash_path_spec(ext, aligned), dashes, offset, prop_oneof![1.0f32..6.0, Just(2.0f32)], 0u8..3, 0u8..3, prop_oneof![Just(10.0f32), Just(4.0f32), 1.0f32..6.0], xf)
         })
-        .prop_map(|((w, h, aligned), path, dash, offset, width, cap, join, miter, xf)| Case {
-            w,
-            h,
-            path,
-            style: StyleSpec { width: Fl(width), cap, join, miter: Fl(miter), dash: dash.into_iter().map(Fl).collect(), offset: Fl(offset) },
-            xf,
-            aligned,
+        .prop_map(|((w, h, aligned), path, dash, offset, width, cap, join, miter, xf)| {
+            // Beyond ~2e4 the phase of the pattern is only defined when the period is exactly representable:
+            // the library adds the entries in f32, and an error of one ulp of the period times offset/period
+            // repetitions would exceed any tolerance.  Huge offsets therefore come with entries that are
+            // multiples of 1/4 (their sums are exact in f32 and in the f64 model alike).
+            let dash: Vec<f32> = if offset.abs() > 2.0e4 { dash.into_iter().map(|d| ((d * 4.0).round() / 4.0).max(0.25)).collect() } else { dash };
+            Case {
+                w,
+                h,
+                path,
+                style: StyleSpec { width: Fl(width), cap, join, miter: Fl(miter), dash: dash.into_iter().map(Fl).collect(), offset: Fl(offset) },
+                xf,
+                aligned,
+            }
         })
         .boxed()
 }
@@ -457,7 +478,7 @@ pub fn property(ctx: &Ctx) -> Property {
     let seams_open = ctx.excluded(super::c04::SEAM_KEY);
     Property {
         id: "C09",
-        rule: "cases: 1-3 polyline subpaths (open/closed, 2-5 vertices, segments >= 1 px), dash arrays of 1-6 positive entries (0.5..30 plus entries longer than the whole path; odd lengths), offsets 0 / small / beyond the period / 10^3..10^4 / negative, widths 1-6, all caps and joins, identity or similarity transform; a generic class (random floats) and an aligned class (integer lengths and dashes so that dash boundaries land exactly on vertices, subpath ends and the closing point); plus arrays that must disable the stroke (zero, negative or NaN total). Oracle (a), both classes, through the cfg(raqote_verif) hook on dash_path: every output vertex lies on the input path, total 'on' length equals that of an f64 arc-length dasher (pattern repeated cyclically, odd arrays doubled, offset modulo the period with mathematical sign, restarted per subpath), a closed subpath that is 'on' throughout comes out as one closed outline, and in the generic class every model piece (incl. the piece joined across the start of a closed subpath) appears with the same end points and length. Oracle (b), generic class: the model's pieces are turned into C04's stroke region and every pixel more than 0.75 px inside / outside is judged. Non-trivial: >= 2 dashes on a subpath and one of: closed subpath, dash spanning a corner, offset != 0, odd array, dash longer than the subpath, dash boundary on the closing segment; distinct by hash of the case.",
+        rule: "cases: 1-3 polyline subpaths (open/closed, 2-5 vertices, segments >= 1 px), dash arrays of 1-6 positive entries (0.5..30 plus entries longer than the whole path; odd lengths), offsets 0 / small / beyond the period / 10^3..10^4 / negative / huge (10^5..10^15, either sign), widths 1-6, all caps and joins, identity or similarity transform; a generic class (random floats) and an aligned class (integer lengths and dashes so that dash boundaries land exactly on vertices, subpath ends and the closing point); plus arrays that must disable the stroke (zero, negative or NaN total). Oracle (a), both classes, through the cfg(raqote_verif) hook on dash_path: every output vertex lies on the input path, total 'on' length equals that of an f64 arc-length dasher (pattern repeated cyclically, odd arrays doubled, offset modulo the period with mathematical sign, restarted per subpath), a closed subpath that is 'on' throughout comes out as one closed outline, and in the generic class every model piece (incl. the piece joined across the start of a closed subpath) appears with the same end points and length. Oracle (b), generic class: the model's pieces are turned into C04's stroke region and every pixel more than 0.75 px inside / outside is judged. Non-trivial: >= 2 dashes on a subpath and one of: closed subpath, dash spanning a corner, offset != 0, odd array, dash longer than the subpath, dash boundary on the closing segment; distinct by hash of the case.",
         assumptions: vec![
             "pixel judgement excludes the aligned class and any case with a dash boundary within 1e-3 of a vertex (whether an epsilon-long piece turns a corner is decided by f32 rounding)",
             "the sub-pixel seam finding of C04 applies to dashed strokes with the same signature",
@@ -468,6 +489,7 @@ pub fn property(ctx: &Ctx) -> Property {
             ("dash", "closed-subpath", 0.3),
             ("dash", "dash-spans-corner", 0.2),
             ("dash", "offset-negative", 0.1),
+            ("dash", "offset-huge", 0.05),
             ("dash", "odd-array", 0.3),
             ("dash", "dash-longer-than-subpath", 0.05),
             ("dash", "closed-end-joined-to-start", 0.03),
